@@ -502,6 +502,9 @@ func cueDangerous(data []byte) bool {
 func runDecoder(name string, dec dials.Decoder) func(sel int, data []byte) textResult {
 	return func(sel int, data []byte) textResult {
 		ft := decoderTypes[sel%len(decoderTypes)]
+		if ft.ptrErr != nil {
+			return textResult{viol: &violation{key: "pointerify-panic", msg: ft.ptrErr.Error()}}
+		}
 		if name == "Cue" && knownDefect(keyMemory) && cueDangerous(data) {
 			return textResult{labels: []string{"cfg:" + ft.name, "known-runaway-input-skipped"}}
 		}
